@@ -320,3 +320,47 @@ def et_exact(ctx, R, fis, minimum=3):
                        "'t' (two-winding) rows with the same index, or the other way round", fi.loc(t))
     ctx.ob(R, "sweep", n >= minimum, f"{n} type-code comparisons examined", "", nontrivial=False)
     return n
+
+
+def in_service_factor(ctx, rule, fi, acc_names=("p", "q"), mask_name="vl"):
+    """Inside every `if len(<table>) > 0:` block of an aggregation function that binds `vl = _is_elements[<type>]`, every term
+    appended or added to the accumulators p / q carries the factor vl: an out-of-service element contributes nothing.
+    Returns the number of terms checked."""
+    import ast
+    from ppsa.astutil import norm, names_in
+    n = 0
+
+    def terms(st):
+        v = st.value
+        tgt = st.targets[0].id
+        if isinstance(v, ast.Call) and (norm(v.func, 30).endswith("hstack")) and v.args and isinstance(v.args[0], (ast.List, ast.Tuple)):
+            return [e for e in v.args[0].elts if not (isinstance(e, ast.Name) and e.id == tgt)]
+        if isinstance(v, ast.BinOp) and isinstance(v.op, ast.Add):
+            out = []
+            for side in (v.left, v.right):
+                if not (isinstance(side, ast.Name) and side.id == tgt):
+                    out.append(side)
+            return out
+        return None
+
+    for blk in ast.walk(fi.node):
+        if not isinstance(blk, ast.If):
+            continue
+        binds = [s for s in blk.body if isinstance(s, ast.Assign) and isinstance(s.targets[0], ast.Name) and s.targets[0].id == mask_name
+                 and "_is_elements" in norm(s.value, 80)]
+        if not binds:
+            continue
+        typ = norm(binds[0].value, 80)
+        for st in ast.walk(blk):
+            if isinstance(st, ast.Assign) and len(st.targets) == 1 and isinstance(st.targets[0], ast.Name) and st.targets[0].id in acc_names:
+                ts = terms(st)
+                if ts is None:
+                    continue
+                for t in ts:
+                    n += 1
+                    ok = mask_name in names_in(t)
+                    ctx.ob(rule, f"{fi.module.name}::{fi.qualname}::{typ}:{st.targets[0].id}#{n}", ok,
+                           f"term `{norm(t, 70)}` carries the in-service factor" if ok else
+                           f"`{norm(st, 110)}`: the term is not multiplied by the in-service mask {mask_name} ({typ}) - an out-of-service "
+                           "element still contributes to the bus admittance while its result row reports zero", fi.loc(st))
+    return n
